@@ -56,6 +56,20 @@ extra = [
  'a:(x OR y) AND b:(x OR y)', 'a:(x OR y) OR a:(y OR x)', 'a:>1 AND a:>1', 'a:<=5 a:<=5', 'a:[1 TO 5] OR a:[1 TO 5]',
  'x AND y AND z', 'x OR y OR z', 'x y z', 'x AND y z', 'x y AND z', 'x OR y z', 'x y OR z', 'x NOT y', 'x AND NOT y', 'x OR NOT y', 'NOT x y', 'NOT x AND y', 'NOT x OR y', '+x -y z', '+x AND -y', 'x~ y^', 'x^2 y~3', '"x y"~2 z', 'x:1 y:2 z:3', 'x:1 OR y:2 z:3 AND w:4',
 ]
+# position bait: every literal kind where a field name is expected, keywords and wildcards in odd places
+extra += ['*:foo', '*:*', '*:[1 TO 2]', '*:[* TO *]', '?:x', 'b*:c', 'f?o:bar', '/re/:x', '5:x', '-5:x', '1.5:[1 TO 2]', '"q s":*', "'q':'*'", 'x:* AND *:y',
+ '*:foo AND a:*', 'a:[* TO 5] AND *:b', '* AND *', '* OR a:*', 'NOT *', '+* -*', '*~', '*^2', '(*)', 'a:(* OR b)', 'a:(* OR *)', '*:(x OR y)', 'TO:TO', 'a:[TO TO TO]', 'NOT:NOT', 'or:and',
+ 'a:* AND b:* AND c:*', 'c:*', 'x:y AND z:*', 'a:{* TO 5}', 'a:[5 TO *] OR b:*']
+# size bait: capacities and thresholds (16, 32, 64, 256) that pooling / scratch-buffer code tends to use
+def vals(n, pre="v"): return " OR ".join("%s%02d" % (pre, i) for i in range(1, n + 1))
+extra += [
+ 'a:(%s)' % vals(16), 'a:(%s)' % vals(17), 'a:(%s)' % vals(20), 'a:(%s)' % vals(33), 'a:(%s)' % vals(70),
+ 'a:(%s) AND b:(x OR y OR z)' % vals(20), 'b:(x OR y OR z) AND a:(%s)' % vals(18, "w"), 'a:(%s)' % " OR ".join(str(i) for i in range(1, 41)),
+ " AND ".join("f%d:%d" % (i, i) for i in range(1, 41)), " OR ".join("f%d:v%d" % (i, i) for i in range(1, 70)), " ".join("t%d" % i for i in range(1, 35)),
+ "(" * 20 + "a:b" + ")" * 20, "NOT " * 12 + "a:b", "+" + "(" * 9 + "a:b AND c:d" + ")" * 9,
+ 'a:' + "x" * 300, 'a:"' + "y z " * 80 + '"', "k" * 200 + ":v", 'a:[%s TO %s]' % ("1" * 18, "9" * 18), 'a:/%s/' % ("ab+" * 60),
+ " AND ".join("a:(x OR y OR z)" for _ in range(12)), " OR ".join("a:[%d TO %d]" % (i, i + 5) for i in range(20)),
+]
 seen = set(); res = []
 for s in out + extra:
     if s in seen: continue
